@@ -120,7 +120,7 @@ def make_policy(spec, kinds_out):
 
 
 def execute(spec, opts, rng, *, client_seg="whole", server_seg="whole", schedule="fifo", extra_policy=None, m3=(), open_plan=None, max_steps=3000,
-            client_cut=None, server_cut=None, client_eof=False, addons=None):
+            client_cut=None, server_cut=None, client_eof=False, addons=None, early_origin=False):
     """Run one execution of spec. Returns (driver, info).
     Faults: client_cut=o  -> the client sends only the first o bytes, then closes;
             server_cut=(k, o) -> the k-th response written by any origin is truncated to o bytes, then the origin closes;
@@ -153,7 +153,7 @@ def execute(spec, opts, rng, *, client_seg="whole", server_seg="whole", schedule
 
     st = spec.get("streaming")
     early_ok = None
-    if st and st["early"]:
+    if (st and st["early"]) or early_origin:
         def early_ok(k, hm):
             m = TAG.search(hm["target"])
             rs = response_for(spec, m.group(0) if m else b"unknown", hm["method"])
